@@ -194,6 +194,24 @@ class Prop(BaseProp):
                           'make': 'make', 'iter': 'iter'}[ops[i][0]]
                 status = 'spec' if clause in ('items', 'add', 'nontext', 'lookup') else 'diverge'
                 return Verdict(status, case, clause + ' (op %d)' % i, impl=a, model=b, tags=tags)
+        # two scans of the same matcher consumed in turns (iter is lazy): each reports what it reports alone
+        texts = [op[1] for op in ops if op[0] == 'iter']
+        if len(texts) >= 2 and any(o[0] == 'make' for o in ops):
+            def canon(ts):
+                return [[t.start, t.end, t.string, T('none') if t.value is None else t.value] for t in ts]
+            alone = [canon(list(trie.iter(tx, include_unmatched=True))) for tx in texts[:2]]
+            turn = [[], []]
+            try:
+                for a, b in itertools.zip_longest(trie.iter(texts[0], include_unmatched=True), trie.iter(texts[1], include_unmatched=True)):
+                    if a is not None:
+                        turn[0].append(a)
+                    if b is not None:
+                        turn[1].append(b)
+                turn = [canon(x) for x in turn]
+            except BaseException as e:  # noqa
+                turn = 'raised ' + type(e).__name__
+            if turn != alone:
+                return Verdict('spec', case, 'two scans of one matcher consumed in turns do not report what each reports alone', impl=turn, model=alone, tags=tags)
         if impl_fail != model_fail:
             return Verdict('diverge', case, 'fail links', impl=impl_fail, model=model_fail, tags=tags)
         return Verdict('ok', case, impl=impl_out[-1], nontrivial=nontrivial, tags=tags)
